@@ -140,7 +140,7 @@ def inC01 : PyVal → Bool
   | .int cls _ lit => cls.isNone && isNumTok lit
   | .float cls kind lit _ _ => cls.isNone && (kind != 0 || isNumTok lit)
   | .str cls _ _ => cls.isNone
-  | .seq _ cls xs => cls.isNone && inC01L xs
+  | .seq kind cls xs => cls.isNone && decide (kind ≤ 2) && inC01L xs
   | .frozenset cls xs => cls.isNone && inC01L xs
   | .dict cls kvs => cls.isNone && inC01P kvs
   | _ => false
@@ -190,6 +190,8 @@ def needP : List (PyVal × PyVal) → Nat
   | [] => 0
   | (k, v) :: r => max (max (need k) (need v)) (needP r)
 end
+
+theorem withTruncation_noLimit' (len : Nat) (t : Option PS) : withTruncation len none t = t := rfl
 
 /-! ### leaves -/
 
@@ -269,6 +271,488 @@ theorem fspecial_read (n : Str) : ElemOk [.code sFloat, LP, .lit (some n), RP] (
   cases f with
   | zero => omega
   | succ f => simp [parseV, sFloat, LP, RP]
+
+/-! ### containers -/
+
+/-- a context without depth limit, max_seq_len and key sorting -/
+def Free (ctx : Ctx) : Prop := ctx.depthLeft = none ∧ ctx.maxSeqLen = none ∧ ctx.sortKeys = false
+
+theorem Free.nested {ctx : Ctx} (h : Free ctx) : Free ctx.nested :=
+  ⟨by simp [Ctx.nested, h.1], h.2.1, h.2.2⟩
+
+theorem Free.depthZero {ctx : Ctx} (h : Free ctx) : ctx.depthZero = false := by simp [Ctx.depthZero, h.1]
+theorem Free.any {ctx : Ctx} (h : Free ctx) : ctx.depthLeft.any (· == 0) = false := by simp [h.1]
+
+theorem need_le_needL : ∀ (xs : List PyVal) (x : PyVal), x ∈ xs → need x ≤ needL xs
+  | [], _, h => by simp at h
+  | v :: r, x, h => by
+    simp only [List.mem_cons] at h
+    simp only [needL]
+    rcases h with rfl | h
+    · omega
+    · have := need_le_needL r x h; omega
+
+/-- the token lists and denotations of the elements of a sequence, paired -/
+def elemPairs (ctx : Ctx) : List PyVal → List (List CT × RVal)
+  | [] => []
+  | v :: r => (canonW ctx v none, erase v) :: elemPairs ctx r
+
+theorem elemPairs_fst (ctx : Ctx) : ∀ xs, (elemPairs ctx xs).map (·.1) = canonL ctx xs
+  | [] => rfl
+  | v :: r => by simp [elemPairs, canonL, elemPairs_fst ctx r]
+theorem elemPairs_snd (ctx : Ctx) : ∀ xs, (elemPairs ctx xs).map (·.2) = eraseL xs
+  | [] => rfl
+  | v :: r => by simp [elemPairs, eraseL, elemPairs_snd ctx r]
+theorem elemPairs_length (ctx : Ctx) : ∀ xs, (elemPairs ctx xs).length = xs.length
+  | [] => rfl
+  | v :: r => by simp [elemPairs, elemPairs_length ctx r]
+
+/-- the tokens between the brackets of a non-empty list / tuple / set: first element, then `, element` …, then an
+optional comma (a one-element tuple, or a trailing comment) -/
+theorem seq_body (ctx : Ctx) (hf : Free ctx) (kind : Nat) (x : PyVal) (xs : List PyVal) (tr : Option PS) :
+    seqCanon ctx kind none (x :: xs).length (canonL ctx.nested (x :: xs)) tr =
+      [(bracketToks kind).1] ++ (canonW ctx.nested x none ++ tailToks (canonL ctx.nested xs) (tr.isSome || (kind == 1 && xs.isEmpty))) ++
+        [(bracketToks kind).2] := by
+  unfold seqCanon
+  have hz := hf.depthZero
+  simp only [hf.2.1, withTruncation_noLimit', takeOpt, hz, List.length_cons, canonL]
+  have hl0 : (xs.length + 1 == 0) = false := by simp
+  simp only [hl0, Bool.false_eq_true, if_false, Option.isNone_none, if_true]
+  cases tr with
+  | some t =>
+    simp only [Option.isSome_some, Bool.true_or]
+    have : (if (xs.length + 1 == 1) = true then canonW ctx.nested x none :: canonL ctx.nested xs else canonW ctx.nested x none :: canonL ctx.nested xs) =
+        canonW ctx.nested x none :: canonL ctx.nested xs := by split <;> rfl
+    rw [this]
+    have e2 : canonW ctx.nested x none :: canonL ctx.nested xs ++ [[]] = canonW ctx.nested x none :: (canonL ctx.nested xs ++ [[]]) := rfl
+    rw [e2, seqToks_cons, tailToks_snoc_empty]
+  | none =>
+    simp only [Option.isSome_none, Bool.false_or]
+    have : (if (xs.length + 1 == 1) = true then canonW ctx.nested x none :: canonL ctx.nested xs else canonW ctx.nested x none :: canonL ctx.nested xs) =
+        canonW ctx.nested x none :: canonL ctx.nested xs := by split <;> rfl
+    rw [this, seqToks_cons]
+    have e : (xs.length + 1 == 1) = xs.isEmpty := by cases xs <;> simp
+    rw [e]
+
+/-! ### dicts -/
+
+def pairTail (ps : List (PyVal × List CT × List CT)) : List CT :=
+  ps.flatMap fun q => COMMA_T :: (q.2.1 ++ COLON_T :: q.2.2)
+
+theorem dictPairToks_cons (p : PyVal × List CT × List CT) (ps : List (PyVal × List CT × List CT)) :
+    dictPairToks (p :: ps) = p.2.1 ++ COLON_T :: p.2.2 ++ pairTail ps := by
+  induction ps generalizing p with
+  | nil => obtain ⟨k, kt, vt⟩ := p; simp [dictPairToks, pairTail]
+  | cons q r ih =>
+    obtain ⟨k, kt, vt⟩ := p
+    simp only [dictPairToks, ih, pairTail, List.flatMap_cons]
+    simp
+
+theorem pairWith_ok (f : Nat) (kt vt : List CT) (ek ev : RVal) (nk : Nat) (hk : ElemOk kt ek nk) (hv : ElemOk vt ev nk) (hf : nk ≤ f)
+    (rest : List CT) :
+    pairWith (fun t => parseV f t) (kt ++ COLON_T :: vt ++ rest) = some ((ek, ev), rest) := by
+  have h1 := hk.reads f hf (COLON_T :: vt ++ rest)
+  have h2 := hv.reads f hf rest
+  unfold pairWith
+  simp only [List.append_assoc, List.cons_append] at h1 ⊢
+  rw [h1]
+  simp only [COLON_T]
+  rw [h2]
+
+theorem parsePairs_close (f : Nat) (r : List CT) : parsePairs (f + 1) (.code [125] :: r) = some ([], r) := by
+  simp [parsePairs]
+
+theorem parsePairs_comma (f : Nat) (t0 : CT) (hne : t0 ≠ .code [125]) (r : List CT) :
+    parsePairs (f + 1) (.code [44] :: t0 :: r) = thenPairs (pairWith (fun t => parseV f t) (t0 :: r)) (fun t => parsePairs f t) := by
+  cases t0 with
+  | code c2 =>
+    have hc2 : c2 ≠ [125] := fun e => hne (by rw [e])
+    simp [parsePairs, hc2]
+  | lit v => simp [parsePairs]
+
+theorem thenPairs_some (kv : RVal × RVal) (r1 : List CT) (k : List CT → Option (List (RVal × RVal) × List CT)) (kvs : List (RVal × RVal))
+    (r2 : List CT) (h : k r1 = some (kvs, r2)) : thenPairs (some (kv, r1)) k = some (kv :: kvs, r2) := by
+  simp [thenPairs, h]
+
+/-- token pairs with their denotations -/
+structure PairOk (q : PyVal × List CT × List CT) (d : RVal × RVal) (n : Nat) : Prop where
+  key : ElemOk q.2.1 d.1 n
+  val : ElemOk q.2.2 d.2 n
+
+theorem parsePairs_ok (n : Nat) : ∀ (ps : List ((PyVal × List CT × List CT) × (RVal × RVal))), (∀ p ∈ ps, PairOk p.1 p.2 n) →
+    ∀ f, ps.length + 1 + n ≤ f → ∀ rest,
+      parsePairs f (pairTail (ps.map (·.1)) ++ .code [125] :: rest) = some (ps.map (·.2), rest) := by
+  intro ps
+  induction ps with
+  | nil =>
+    intro _ f hf rest
+    cases f with
+    | zero => omega
+    | succ f => simpa [pairTail] using parsePairs_close f rest
+  | cons p r ih =>
+    intro h f hf rest
+    obtain ⟨⟨k, kt, vt⟩, ⟨ek, ev⟩⟩ := p
+    have hp := h _ (List.mem_cons_self ..)
+    obtain ⟨t0, tr0, ht, _, _, hn3, _, _⟩ := hp.key.head
+    cases f with
+    | zero => omega
+    | succ f =>
+      simp only at ht
+      subst ht
+      have ihh := ih (fun q hq => h q (by simp [hq])) f (by simp at hf ⊢; omega) rest
+      have hpw := pairWith_ok f (t0 :: tr0) vt ek ev n hp.key hp.val (by simp at hf; omega)
+        (pairTail (r.map (·.1)) ++ .code [125] :: rest)
+      have e : pairTail (List.map (·.1) (((k, t0 :: tr0, vt), (ek, ev)) :: r)) ++ CT.code [125] :: rest =
+          .code [44] :: t0 :: (tr0 ++ COLON_T :: vt ++ (pairTail (r.map (·.1)) ++ CT.code [125] :: rest)) := by
+        simp [pairTail, COMMA_T, List.flatMap_cons]
+      rw [e, parsePairs_comma f t0 hn3]
+      have e2 : t0 :: (tr0 ++ COLON_T :: vt ++ (pairTail (r.map (·.1)) ++ CT.code [125] :: rest)) =
+          (t0 :: tr0) ++ COLON_T :: vt ++ (pairTail (r.map (·.1)) ++ CT.code [125] :: rest) := by simp
+      rw [e2, hpw]
+      exact thenPairs_some _ _ _ _ _ ihh
+
+/-! ### the main induction -/
+
+theorem numTok_not_blank (lit : Str) (h : isNumTok lit = true) : isBlank lit = false := by
+  cases lit with
+  | nil => simp [isNumTok] at h
+  | cons c l =>
+    have hc : (48 ≤ c ∧ c ≤ 57) ∨ c = 45 := by simpa [isNumTok] using h
+    have : c ≠ 32 := by omega
+    simp [isBlank, this]
+
+theorem parseV_list (f : Nat) (r : List CT) :
+    parseV (f + 1) (.code [91] :: r) = asList (parseTailStart f [93] r) := by
+  simp [parseV]
+
+theorem parseV_tuple (f : Nat) (r : List CT) :
+    parseV (f + 1) (.code [40] :: r) = asTuple (parseTailStart f [41] r) := by
+  simp [parseV]
+
+theorem parseV_brace (f : Nat) (r : List CT) : parseV (f + 1) (.code [123] :: r) = parseBrace f r := by
+  simp [parseV]
+
+theorem parseV_set0 (f : Nat) (r : List CT) : parseV (f + 1) (.code sSet :: LP :: RP :: r) = some (.set [], r) := by
+  simp [parseV, sSet, sFloat, LP, RP]
+
+theorem parseV_fset0 (f : Nat) (r : List CT) : parseV (f + 1) (.code sFrozenset :: LP :: RP :: r) = some (.fset [], r) := by
+  simp [parseV, sFrozenset, sSet, sFloat, LP, RP]
+
+theorem parseV_fset (f : Nat) (r : List CT) :
+    parseV (f + 1) (.code sFrozenset :: LP :: .code [91] :: r) = asFset (parseTailStart f [93] r) := by
+  simp [parseV, sFrozenset, sSet, sFloat, LP]
+
+theorem cd_name (s : Str) (h : isBlank s = false) : cd s = [.code s] := by simp [cd, h]
+
+theorem headOk_open (c : Nat) (hc : c = 91 ∨ c = 40 ∨ c = 123) (r : List CT) : HeadOk (.code [c] :: r) := by
+  refine headOk_code _ ?_ ?_ ?_ ?_ ?_ _ <;> (intro e; injection e with e1; omega)
+
+theorem braceAfterFirst_set (x : RVal) (r1 : List CT) (pv pairs) (tail : List CT → Option (List RVal × Bool × List CT))
+    (xs : List RVal) (tc : Bool) (r2 : List CT) (hnc : ∀ r', r1 ≠ .code [58] :: r') (ht : tail r1 = some (xs, tc, r2)) :
+    braceAfterFirst (some (x, r1)) pv pairs tail = some (.set (x :: xs), r2) := by
+  unfold braceAfterFirst
+  split
+  · rename_i x' r1' heq
+    simp only [Option.some.injEq, Prod.mk.injEq] at heq
+    exact absurd heq.2 (hnc r1')
+  · rename_i x' r1' _ heq
+    simp only [Option.some.injEq, Prod.mk.injEq] at heq
+    obtain ⟨rfl, rfl⟩ := heq
+    rw [ht]
+  · rename_i heq; cases heq
+
+theorem braceAfterFirst_dict (x v : RVal) (r1 r2 r3 : List CT) (pv : List CT → Option (RVal × List CT)) (pairs) (tail)
+    (kvs : List (RVal × RVal)) (hv : pv r1 = some (v, r2)) (hp : pairs r2 = some (kvs, r3)) :
+    braceAfterFirst (some (x, .code [58] :: r1)) pv pairs tail = some (.dict ((x, v) :: kvs), r3) := by
+  simp [braceAfterFirst, hv, hp]
+
+theorem tailToks_head (els : List (List CT)) (tc : Bool) (close : Str) (rest : List CT) (hc : close ≠ [58]) :
+    ∀ r', tailToks els tc ++ .code close :: rest ≠ .code [58] :: r' := by
+  intro r' e
+  cases els with
+  | nil =>
+    cases tc
+    · simp [tailToks] at e; exact hc e.1
+    · simp [tailToks, COMMA_T] at e
+  | cons t r => simp [tailToks, COMMA_T, List.flatMap_cons] at e
+
+/-- pairs of a dict with their denotations -/
+def pairPairs (ctx : Ctx) : List (PyVal × PyVal) → List ((PyVal × List CT × List CT) × (RVal × RVal))
+  | [] => []
+  | (k, v) :: r => ((k, canonW ctx.nested k none, canonW ctx.nested v none), (erase k, erase v)) :: pairPairs ctx r
+
+theorem keyCanon_free (ctx : Ctx) (hf : Free ctx) (k : PyVal) : keyCanon k (canonW ctx.nested k none) = canonW ctx.nested k none := by
+  cases k <;> simp [keyCanon, canonW, hf.nested.depthZero]
+
+theorem pairPairs_fst (ctx : Ctx) (hf : Free ctx) : ∀ kvs, (pairPairs ctx kvs).map (·.1) = canonPairs ctx kvs
+  | [] => rfl
+  | (k, v) :: r => by simp [pairPairs, canonPairs, pairPairs_fst ctx hf r, keyCanon_free ctx hf k]
+theorem pairPairs_snd (ctx : Ctx) : ∀ kvs, (pairPairs ctx kvs).map (·.2) = eraseP kvs
+  | [] => rfl
+  | (k, v) :: r => by simp [pairPairs, eraseP, pairPairs_snd ctx r]
+theorem pairPairs_length (ctx : Ctx) : ∀ kvs, (pairPairs ctx kvs).length = kvs.length
+  | [] => rfl
+  | (k, v) :: r => by simp [pairPairs, pairPairs_length ctx r]
+
+mutual
+theorem canon_reads : (v : PyVal) → inC01 v = true → ∀ (ctx : Ctx), Free ctx → ∀ (tr : Option PS),
+    ElemOk (canonW ctx v tr) (erase v) (need v)
+  | .commented v t, h, ctx, hf, tr => by
+      simp only [canonW, erase, need]; exact canon_reads v (by simpa [inC01] using h) ctx hf tr
+  | .trailing v t, h, ctx, hf, tr => by
+      simp only [canonW, erase, need]; exact canon_reads v (by simpa [inC01] using h) ctx hf (some t)
+  | .none, _, ctx, hf, tr => by simp only [canonW, erase, need]; exact kw_read sNone (Or.inl rfl)
+  | .ellipsis, _, ctx, hf, tr => by
+      simp only [canonW, erase, need]; exact kw_read sEll (Or.inr (Or.inr (Or.inr rfl)))
+  | .bool b, _, ctx, hf, tr => by
+      simp only [canonW, erase, need]
+      cases b
+      · exact kw_read sFalse (Or.inr (Or.inr (Or.inl rfl)))
+      · exact kw_read sTrue (Or.inr (Or.inl rfl))
+  | .int cls val lit, h, ctx, hf, tr => by
+      simp only [inC01, Bool.and_eq_true, Option.isNone_iff_eq_none] at h
+      obtain ⟨rfl, hl⟩ := h
+      simp only [canonW, hf.depthZero, Bool.false_eq_true, if_false, wrapToks, erase, need, cd_name lit (numTok_not_blank lit hl)]
+      exact num_read lit hl
+  | .float cls kind lit n d, h, ctx, hf, tr => by
+      simp only [inC01, Bool.and_eq_true, Option.isNone_iff_eq_none, Bool.or_eq_true] at h
+      obtain ⟨rfl, hl⟩ := h
+      simp only [canonW, hf.depthZero, Bool.false_eq_true, if_false, erase, need, Option.getD_none]
+      by_cases hk : (kind == 0) = true
+      · have hl' : isNumTok lit = true := by
+          rcases hl with h | h
+          · have h0 : kind = 0 := by simpa using hk
+            subst h0; simp at h
+          · exact h
+        simp only [hk, if_true, wrapToks, cd_name lit (numTok_not_blank lit hl')]
+        exact num_read lit hl'
+      · simp only [hk, Bool.false_eq_true, if_false, hf.nested.depthZero]
+        have : callToks (builtin nmFloat) [[CT.lit (some (floatName kind))]] = [.code sFloat, LP, .lit (some (floatName kind)), RP] := by
+          simp [callToks, builtin, nmFloat, sFloat, cd, isBlank, seqToks]
+        rw [this]
+        exact fspecial_read _
+  | .str cls b s, h, ctx, hf, tr => by
+      simp only [inC01, Option.isNone_iff_eq_none] at h
+      subst h
+      simp only [canonW, hf.depthZero, Bool.false_eq_true, if_false, erase, need, strCanon]
+      exact str_read b (cps s)
+  | .seq kind cls xs, h, ctx, hf, tr => by
+      simp only [inC01, Bool.and_eq_true, Option.isNone_iff_eq_none, decide_eq_true_eq] at h
+      obtain ⟨⟨rfl, hk⟩, hxs⟩ := h
+      simp only [canonW]
+      cases xs with
+      | nil =>
+        -- the empty list / tuple / set
+        simp only [seqCanon, List.length_nil, beq_self_eq_true, if_true, Option.isNone_none, Bool.and_true, canonL, erase, eraseL, need]
+        have hk3 : kind = 0 ∨ kind = 1 ∨ kind = 2 := by omega
+        rcases hk3 with rfl | rfl | rfl
+        · refine ⟨headOk_open 91 (Or.inl rfl) _, ?_⟩
+          intro f hfu rest
+          cases f with
+          | zero => simp [needL] at hfu
+          | succ f =>
+            cases f with
+            | zero => simp [needL] at hfu
+            | succ f => simp [bracketToks, parseV_list, parseTailStart_close, asList]
+        · refine ⟨headOk_open 40 (Or.inr (Or.inl rfl)) _, ?_⟩
+          intro f hfu rest
+          cases f with
+          | zero => simp [needL] at hfu
+          | succ f =>
+            cases f with
+            | zero => simp [needL] at hfu
+            | succ f => simp [bracketToks, LP, RP, parseV_tuple, parseTailStart_close, asTuple]
+        · have : emptyCallToks ctx (builtin (seqName 2)) = [.code sSet, LP, RP] := by
+            simp [emptyCallToks, hf.any, builtin, seqName, nmSet, sSet, cd, isBlank]
+          simp only [bne_self_eq_false, Bool.false_and, Bool.false_eq_true, if_false, Option.getD_none, this]
+          refine ⟨headOk_code _ (by decide) (by decide) (by decide) (by decide) (by decide) _, ?_⟩
+          intro f hfu rest
+          cases f with
+          | zero => simp [needL] at hfu
+          | succ f => simpa using parseV_set0 f rest
+      | cons x xs' =>
+        simp only [inC01L, Bool.and_eq_true] at hxs
+        have hpairs : ∀ q ∈ elemPairs ctx.nested (x :: xs'), ElemOk q.1 q.2 (needL (x :: xs')) := by
+          exact elemPairs_ok (x :: xs') (by simpa [inC01L] using hxs) ctx.nested hf.nested
+        rw [seq_body ctx hf kind x xs' (nonEmpty? tr)]
+        simp only [erase, need]
+        have hk3 : kind = 0 ∨ kind = 1 ∨ kind = 2 := by omega
+        have hstart : ∀ (close : Str) (hc : isCloser close) (f : Nat), xs'.length + 3 + needL (x :: xs') ≤ f → ∀ (tc : Bool) (rest : List CT),
+            parseTailStart f close (canonW ctx.nested x none ++ tailToks (canonL ctx.nested xs') tc ++ .code close :: rest) =
+              some (eraseL (x :: xs'), tc, rest) := by
+          intro close hc f hfu tc rest
+          have := parseTailStart_ok close hc (needL (x :: xs')) (canonW ctx.nested x none, erase x) (elemPairs ctx.nested xs') tc
+            (by simpa [elemPairs] using hpairs) f (by rw [elemPairs_length]; exact hfu) rest
+          simpa [elemPairs_fst, elemPairs_snd, eraseL] using this
+        rcases hk3 with rfl | rfl | rfl
+        · refine ⟨headOk_open 91 (Or.inl rfl) _, ?_⟩
+          intro f hfu rest
+          cases f with
+          | zero => simp at hfu
+          | succ f =>
+            have := hstart [93] (Or.inl rfl) f (by simp at hfu ⊢; omega) ((nonEmpty? tr).isSome || (0 == 1 && xs'.isEmpty)) rest
+            simp only [bracketToks, beq_self_eq_true, if_true, List.cons_append, List.nil_append, List.append_assoc, List.singleton_append] at this ⊢
+            rw [parseV_list, this]
+            rfl
+        · refine ⟨headOk_open 40 (Or.inr (Or.inl rfl)) _, ?_⟩
+          intro f hfu rest
+          cases f with
+          | zero => simp at hfu
+          | succ f =>
+            have := hstart [41] (Or.inr (Or.inl rfl)) f (by simp at hfu ⊢; omega) ((nonEmpty? tr).isSome || (1 == 1 && xs'.isEmpty)) rest
+            simp only [bracketToks, LP, RP, List.cons_append, List.nil_append, List.append_assoc, List.singleton_append] at this ⊢
+            simp only [show ((1 : Nat) == 0) = false from rfl, Bool.false_eq_true, if_false, beq_self_eq_true, if_true] at this ⊢
+            rw [parseV_tuple, this]
+            -- a one-element tuple always carries its comma
+            cases xs' with
+            | nil => simp [asTuple, eraseL]
+            | cons y ys => simp [asTuple, eraseL]
+        · have eT : ((nonEmpty? tr).isSome || ((2 : Nat) == 1 && xs'.isEmpty)) = (nonEmpty? tr).isSome := by simp
+          rw [eT]
+          refine ⟨headOk_open 123 (Or.inr (Or.inr rfl)) _, ?_⟩
+          intro f hfu rest
+          cases f with
+          | zero => simp at hfu
+          | succ f =>
+            cases f with
+            | zero => simp at hfu; omega
+            | succ f =>
+              have hx := hpairs (canonW ctx.nested x none, erase x) (by simp [elemPairs])
+              obtain ⟨t0, tr0, ht, _, _, hn3, _, _⟩ := hx.head
+              simp only at ht
+              have hread := hx.reads f (by simp at hfu ⊢; have := need_le_needL (x :: xs') x (by simp); omega)
+                (tailToks (canonL ctx.nested xs') (nonEmpty? tr).isSome ++ .code [125] :: rest)
+              have htail := parseTail_ok [125] (Or.inr (Or.inr rfl)) (needL (x :: xs')) (elemPairs ctx.nested xs')
+                (nonEmpty? tr).isSome (fun q hq => hpairs q (by simp [elemPairs, hq])) f
+                (by rw [elemPairs_length]; simp at hfu ⊢; omega) rest
+              rw [elemPairs_fst, elemPairs_snd] at htail
+              simp only [bracketToks, List.cons_append, List.nil_append, List.append_assoc, List.singleton_append]
+              simp only [show ((2 : Nat) == 0) = false from rfl, show ((2 : Nat) == 1) = false from rfl, Bool.false_eq_true, if_false]
+              rw [parseV_brace]
+              simp only at hread
+              rw [ht] at hread ⊢
+              simp only [List.cons_append] at hread ⊢
+              have hb : ∀ r, parseBrace (f + 1) (t0 :: r) =
+                  braceAfterFirst (parseV f (t0 :: r)) (fun t => parseV f t) (fun t => parsePairs f t) (fun t => parseTail f [125] t) := by
+                intro r
+                cases t0 with
+                | code c2 =>
+                  have : c2 ≠ [125] := fun e => hn3 (by rw [e])
+                  simp [parseBrace, this]
+                | lit v => simp [parseBrace]
+              rw [hb, hread]
+              rw [braceAfterFirst_set _ _ _ _ _ _ _ _ (tailToks_head _ _ _ _ (by decide)) htail]
+              simp [eraseL]
+  | .frozenset cls xs, h, ctx, hf, tr => by
+      simp only [inC01, Bool.and_eq_true, Option.isNone_iff_eq_none] at h
+      obtain ⟨rfl, hxs⟩ := h
+      simp only [canonW, hf.any, Bool.false_eq_true, if_false, Option.getD_none, erase, need]
+      have hname : cd (builtin nmFrozenset).2 = [.code sFrozenset] := by simp [builtin, nmFrozenset, sFrozenset, cd, isBlank]
+      cases xs with
+      | nil =>
+        simp only [List.isEmpty_nil, if_true, hname, eraseL]
+        refine ⟨headOk_code _ (by decide) (by decide) (by decide) (by decide) (by decide) _, ?_⟩
+        intro f hfu rest
+        cases f with
+        | zero => simp at hfu
+        | succ f => simpa using parseV_fset0 f rest
+      | cons x xs' =>
+        have hpairs : ∀ q ∈ elemPairs ctx.nested (x :: xs'), ElemOk q.1 q.2 (needL (x :: xs')) :=
+          elemPairs_ok (x :: xs') hxs ctx.nested hf.nested
+        simp only [List.isEmpty_cons, Bool.false_eq_true, if_false]
+        rw [seq_body ctx hf 0 x xs' none]
+        simp only [callToks, hname, seqToks, bracketToks, beq_self_eq_true, if_true, Option.isSome_none, Bool.false_or,
+          show ((0 : Nat) == 1) = false from rfl, Bool.false_and]
+        refine ⟨headOk_code _ (by decide) (by decide) (by decide) (by decide) (by decide) _, ?_⟩
+        intro f hfu rest
+        cases f with
+        | zero => simp at hfu
+        | succ f =>
+          have := parseTailStart_ok [93] (Or.inl rfl) (needL (x :: xs')) (canonW ctx.nested x none, erase x) (elemPairs ctx.nested xs') false
+            (by simpa [elemPairs] using hpairs) f (by rw [elemPairs_length]; simp at hfu ⊢; omega) (RP :: rest)
+          simp only [List.map_cons, elemPairs_fst, elemPairs_snd] at this
+          simp only [List.cons_append, List.nil_append, List.append_assoc, List.singleton_append, Bool.false_eq_true, if_false, List.append_nil] at this ⊢
+          rw [parseV_fset, this]
+          simp [asFset, RP, eraseL]
+  | .dict cls kvs, h, ctx, hf, tr => by
+      simp only [inC01, Bool.and_eq_true, Option.isNone_iff_eq_none] at h
+      obtain ⟨rfl, hkv⟩ := h
+      have hpp := pairPairs_ok kvs hkv ctx hf
+      simp only [canonW, erase, need]
+      unfold dictCanon
+      simp only [hf.depthZero, Bool.false_eq_true, if_false, hf.2.2, hf.2.1, takeOpt, Option.isNone_none, if_true]
+      refine ⟨headOk_open 123 (Or.inr (Or.inr rfl)) _, ?_⟩
+      intro f hfu rest
+      cases f with
+      | zero => omega
+      | succ f =>
+        cases f with
+        | zero => omega
+        | succ f =>
+          simp only [List.cons_append, List.nil_append, List.append_assoc, List.singleton_append]
+          rw [parseV_brace]
+          cases kvs with
+          | nil => simp [canonPairs, dictPairToks, parseBrace, eraseP]
+          | cons kv kvs' =>
+            obtain ⟨k, v⟩ := kv
+            have hp1 := hpp ((k, canonW ctx.nested k none, canonW ctx.nested v none), (erase k, erase v)) (by simp [pairPairs])
+            obtain ⟨t0, tr0, ht, _, _, hn3, _, _⟩ := hp1.key.head
+            simp only at ht
+            rw [← pairPairs_fst ctx hf]
+            simp only [pairPairs, List.map_cons]
+            rw [dictPairToks_cons]
+            simp only [List.append_assoc, List.cons_append]
+            have hkread := hp1.key.reads f (by simp [needP] at hfu ⊢; omega)
+              (COLON_T :: (canonW ctx.nested v none ++ (pairTail ((pairPairs ctx kvs').map (·.1)) ++ CT.code [125] :: rest)))
+            have hvread := hp1.val.reads f (by simp [needP] at hfu ⊢; omega)
+              (pairTail ((pairPairs ctx kvs').map (·.1)) ++ CT.code [125] :: rest)
+            have hrest := parsePairs_ok (needP ((k, v) :: kvs')) (pairPairs ctx kvs') (fun q hq => hpp q (by simp [pairPairs, hq])) f
+              (by rw [pairPairs_length]; simp at hfu ⊢; omega) rest
+            simp only at hkread hvread
+            rw [ht] at hkread ⊢
+            simp only [List.cons_append] at hkread ⊢
+            have hb : ∀ r, parseBrace (f + 1) (t0 :: r) =
+                braceAfterFirst (parseV f (t0 :: r)) (fun t => parseV f t) (fun t => parsePairs f t) (fun t => parseTail f [125] t) := by
+              intro r
+              cases t0 with
+              | code c2 =>
+                have : c2 ≠ [125] := fun e => hn3 (by rw [e])
+                simp [parseBrace, this]
+              | lit v => simp [parseBrace]
+            rw [hb, hkread]
+            simp only [COLON_T]
+            rw [braceAfterFirst_dict _ _ _ _ _ _ _ _ _ hvread hrest]
+            simp [eraseP, pairPairs_snd]
+  | .opaque _, h, _, _, _ => by simp [inC01] at h
+  | .ident _, h, _, _, _ => by simp [inC01] at h
+  | .timedelta _ _ _, h, _, _, _ => by simp [inC01] at h
+  | .path _ _, h, _, _, _ => by simp [inC01] at h
+  | .call _ _ _, h, _, _, _ => by simp [inC01] at h
+
+theorem elemPairs_ok : (xs : List PyVal) → inC01L xs = true → ∀ (ctx : Ctx), Free ctx →
+    ∀ q ∈ elemPairs ctx xs, ElemOk q.1 q.2 (needL xs)
+  | [], _, _, _ => by simp [elemPairs]
+  | v :: r, h, ctx, hf => by
+      simp only [inC01L, Bool.and_eq_true] at h
+      intro q hq
+      simp only [elemPairs, List.mem_cons] at hq
+      rcases hq with rfl | hq
+      · exact (canon_reads v h.1 ctx hf none).mono (by simp [needL]; omega)
+      · exact (elemPairs_ok r h.2 ctx hf q hq).mono (by simp [needL]; omega)
+
+theorem pairPairs_ok : (kvs : List (PyVal × PyVal)) → inC01P kvs = true → ∀ (ctx : Ctx), Free ctx →
+    ∀ p ∈ pairPairs ctx kvs, PairOk p.1 p.2 (needP kvs)
+  | [], _, _, _ => by simp [pairPairs]
+  | (k, v) :: r, h, ctx, hf => by
+      simp only [inC01P, Bool.and_eq_true] at h
+      intro p hp
+      simp only [pairPairs, List.mem_cons] at hp
+      rcases hp with rfl | hp
+      · exact ⟨(canon_reads k h.1.1 ctx.nested hf.nested none).mono (by simp [needP]; omega),
+               (canon_reads v h.1.2 ctx.nested hf.nested none).mono (by simp [needP]; omega)⟩
+      · have := pairPairs_ok r h.2 ctx hf p hp
+        exact ⟨this.key.mono (by simp [needP]; omega), this.val.mono (by simp [needP]; omega)⟩
+end
 
 end Tok
 end PP
